@@ -55,6 +55,7 @@ type Exec struct {
 	loops    map[*ssa.BasicBlock]*loopInfo
 	loopList []*loopInfo
 	rets     []retInfo
+	inlineDepth int // > 0 while the body of an uncontracted loop-free helper is executed in place
 	safety   bool
 	nsafe    map[string]int
 
@@ -476,6 +477,21 @@ func (ex *Exec) callModified(in ssa.CallInstruction, ms *modSet) {
 			return
 		}
 		if ex.P.isPure(name) {
+			return
+		}
+		if con := ex.P.contractOf(callee); con == nil && ex.inlinable(callee) {
+			// executed in place: it writes what its body syntactically writes
+			sub := ex.funcModSet(callee)
+			if sub.all {
+				ms.all = true
+			}
+			for h, srt := range sub.heaps {
+				ms.heaps[h] = srt
+			}
+			ms.maps = ms.maps || sub.maps
+			ms.alloc = ms.alloc || sub.alloc
+			ms.pkgs = append(ms.pkgs, sub.pkgs...)
+			ms.ghosts = append(ms.ghosts, sub.ghosts...)
 			return
 		}
 		if con := ex.P.contractOf(callee); con != nil {
@@ -1091,4 +1107,125 @@ func (ex *Exec) frameObligations() {
 		}
 		vc.oblige("frame", fmt.Sprintf("frame:%s:%s", ex.con.Name, h), TTrue, And(parts...), ex.pos(ex.fn.Pos())).SetNote("pre-existing cells of " + h + " not listed in `modifies` are unchanged")
 	}
+}
+
+// inlinable: a function of the repository without a contract whose body is small, loop-free and free of defers,
+// goroutines, closures and channel operations is executed in place at its call sites (depth-limited), so that extracting
+// such a helper from a function under contract changes nothing for the proof.
+func (ex *Exec) inlinable(f *ssa.Function) bool {
+	if v, ok := ex.P.inlinableMemo[f]; ok {
+		return v
+	}
+	ok := func() bool {
+		if f == nil || f.Blocks == nil || len(f.FreeVars) > 0 || f.Pkg == nil || f.Signature.Variadic() {
+			return false
+		}
+		if !strings.HasPrefix(f.Pkg.Pkg.Path(), "github.com/rulego/streamsql") {
+			return false
+		}
+		n := 0
+		for _, b := range f.Blocks {
+			for _, s := range b.Succs {
+				if isBackEdge(b, s) {
+					return false
+				}
+			}
+			for _, in := range b.Instrs {
+				n++
+				switch in := in.(type) {
+				case *ssa.Defer, *ssa.Go, *ssa.MakeClosure, *ssa.Select, *ssa.Send, *ssa.Range, *ssa.Next, *ssa.MakeChan:
+					return false
+				case *ssa.Call:
+					if c := in.Call.StaticCallee(); c == f {
+						return false
+					}
+					if b, isB := in.Call.Value.(*ssa.Builtin); isB && b.Name() == "recover" {
+						return false
+					}
+				}
+			}
+		}
+		return n <= 120
+	}()
+	ex.P.inlinableMemo[f] = ok
+	return ok
+}
+
+// inlineCall executes the body of f on st with the given arguments and leaves st as the join of f's return states.
+func (ex *Exec) inlineCall(st *State, f *ssa.Function, args []T) []T {
+	vc := ex.vc
+	saveFn, saveOut, saveEdge, saveLoops, saveRets, saveInstr := ex.fn, ex.outSt, ex.edge, ex.loops, ex.rets, ex.curInstr
+	ex.fn, ex.outSt, ex.edge, ex.loops, ex.rets = f, map[*ssa.BasicBlock]*State{}, map[[2]int]T{}, map[*ssa.BasicBlock]*loopInfo{}, nil
+	ex.inlineDepth++
+	defer func() {
+		ex.fn, ex.outSt, ex.edge, ex.loops, ex.rets, ex.curInstr = saveFn, saveOut, saveEdge, saveLoops, saveRets, saveInstr
+		ex.inlineDepth--
+	}()
+	for _, b := range f.Blocks {
+		for _, in := range b.Instrs {
+			if a, ok := in.(*ssa.Alloc); ok {
+				if _, seen := ex.allocIdx[a]; !seen {
+					ex.allocIdx[a] = len(ex.allocIdx)
+				}
+			}
+		}
+	}
+	for i, p := range f.Params {
+		if i < len(args) {
+			ex.regs[p] = args[i]
+		}
+	}
+	start := st.clone()
+	for _, b := range ex.blockOrder() {
+		var ins []*State
+		var edges []T
+		if b.Index == 0 {
+			ins, edges = []*State{start}, []T{start.guard}
+		}
+		for _, p := range b.Preds {
+			e, ok := ex.edge[[2]int{p.Index, b.Index}]
+			if !ok || e.s == "false" {
+				continue
+			}
+			ps := ex.outSt[p]
+			if ps == nil || ps.dead {
+				continue
+			}
+			ins = append(ins, ps)
+			edges = append(edges, e)
+		}
+		if len(ins) == 0 {
+			continue
+		}
+		cur := ex.merge(ins, edges)
+		ex.resolvePhis(b, cur, ins, edges)
+		ex.execBlock(b, cur)
+		ex.outSt[b] = cur
+	}
+	rets := ex.rets
+	vc.note("helper %s executed in place", f.Name())
+	if len(rets) == 0 {
+		st.dead = true
+		return ex.havocResults(st, f.Signature, "r."+f.Name())
+	}
+	var sts []*State
+	var gs []T
+	for _, r := range rets {
+		sts = append(sts, r.st)
+		gs = append(gs, r.st.guard)
+	}
+	defers := st.defers
+	merged := ex.merge(sts, gs)
+	*st = *merged
+	st.defers = defers
+	st.dead = false
+	var out []T
+	for j := 0; j < f.Signature.Results().Len(); j++ {
+		var vals []T
+		for _, r := range rets {
+			vals = append(vals, r.results[j])
+		}
+		out = append(out, ex.mergeVals("inl", vals, gs))
+	}
+	return out
 }
